@@ -155,7 +155,13 @@ func (fc *FuncCtx) call(res ssa.Value, c *ssa.CallCommon, st *State, reach strin
 				fc.safety("missing-contract", reach, "false", "inlining depth exceeded at "+shortCallee(key))
 				return fc.unknownCall(res, sig, st, key)
 			}
-			return fc.inline(callee, con, args, st, reach, res)
+			var bind []TV
+			if mc, ok := c.Value.(*ssa.MakeClosure); ok {
+				for _, b := range mc.Bindings {
+					bind = append(bind, fc.v(b))
+				}
+			}
+			return fc.inline(callee, con, args, st, reach, res, bind)
 		}
 		// dependency without a trusted contract
 		if eng.cs.Spec.PurePkgs[fnPkgPath(callee)] {
@@ -905,7 +911,7 @@ func (fc *FuncCtx) closureEnv(mc *ssa.MakeClosure, st, old *State) *Env {
 }
 
 // inline executes the callee's body in place.
-func (fc *FuncCtx) inline(callee *ssa.Function, con *Contract, args []TV, st *State, reach string, res ssa.Value) *State {
+func (fc *FuncCtx) inline(callee *ssa.Function, con *Contract, args []TV, st *State, reach string, res ssa.Value, bind []TV) *State {
 	t := fc.topCtx()
 	t.ninline++
 	sub := &FuncCtx{eng: fc.eng, fn: callee, con: con, q: fc.q, pfx: fmt.Sprintf("i%d_", t.ninline),
@@ -926,7 +932,20 @@ func (fc *FuncCtx) inline(callee *ssa.Function, con *Contract, args []TV, st *St
 		sub.paramTV[p.Name()] = args[i]
 	}
 	if len(callee.FreeVars) > 0 {
-		fc.unsupported("inlining closure %s", callee)
+		// a function literal called where it is built (e.g. `defer func() {...}()`): its free
+		// variables are the captured cells of the caller
+		if len(bind) != len(callee.FreeVars) {
+			fc.unsupported("inlining closure %s", callee)
+		}
+		for i, fv := range callee.FreeVars {
+			sub.val[fv] = bind[i]
+			el, _ := deref(fv.Type())
+			l := bind[i].L
+			if l == nil {
+				l = fc.eng.derefLoc(bind[i].T, el)
+			}
+			sub.paramTV[fv.Name()] = TV{L: l, G: el}
+		}
 	}
 	// states are numbered per top-level context to keep names unique
 	sub.nstate = t.nstate
